@@ -1230,7 +1230,7 @@ static bool parse_string(TokenContext &ctx, Chunk &pc, size_t quote_idx, bool al
       else if (  ch == '\r'
               && ctx.peek() != '\n')
       {
-         pc.Str().append(ctx.get());
+         // a lone CR is a line break of its own: the character behind it is examined like any other
          pc.SetNlCount(pc.GetNlCount() + 1);
          pc.SetType(CT_STRING_MULTI);
       }
